@@ -135,6 +135,22 @@ def check_offset_dense(rng, rep, count):
                         dense_case(name, lam, y, c, rep)
 
 
+def check_endspike(rng, rep, count):
+    """smooth seasonal series with one large spike on the first or the last observation: a selection criterion that loses (or double
+    counts) a term at one end of the series picks a different lambda for the series and for its mirror image only on such inputs"""
+    rng = np.random.default_rng(606 + int(rng.bit_generator.seed_seq.entropy or 0) % 1000 if hasattr(rng.bit_generator, "seed_seq") else 606)   # own stream: the blocks below keep theirs
+    for k in range(count):
+        n = int(rng.integers(12, 60))
+        t = np.arange(n)
+        y = np.rint(3000 + 800 * np.sin(t / 4.0 + rng.uniform(0, 6.28)) + rng.normal(0, 40, n))
+        miss = rng.random(n) < 0.15
+        end = -1 if k % 2 == 0 else 0
+        miss[end] = False
+        y[end] += float(rng.choice([1500.0, -1500.0, 3000.0]))
+        for name in ("vcurve", "vcurve-asym", "vcurve-lc", "fixed", "asym"):
+            check(name, y, miss, rep)
+
+
 def check_linear(name, a, b, n, miss, rep):
     fn, p, kind, _ = VARIANTS[name]
     need = 5 if kind in ("g", "gr") else 2
@@ -156,10 +172,11 @@ def check_linear(name, a, b, n, miss, rep):
 
 
 def run(tier, rng, rep):
-    rep.bound = "series 4..90 (200 thorough), |values| + |c| <= 10000, gap patterns, integer offsets 7/-250/1000/5000/8000, all eight variants; 1500 (12000 thorough) seasonal series x fixed-lambda variants x offsets 5000/8000 (+ robust), exactly linear series with gaps"
+    rep.bound = "series 4..90 (200 thorough), |values| + |c| <= 10000, gap patterns, integer offsets 7/-250/1000/5000/8000, all eight variants; 1500 (12000 thorough) seasonal series x fixed-lambda variants x offsets 5000/8000 (+ robust), exactly linear series with gaps; 60 (600 thorough) seasonal series with a spike on the first / last observation x V-curve and fixed-lambda variants"
     rep.rule = "random series (seeded) x variants x transformations; ties decided by recomputing the unrounded curve / the selection criterion; distinct = distinct (variant, transformation, series)"
     sizes = [4, 6, 12, 30, 90] + ([200] if tier == "thorough" else [])
     check_offset_dense(rng, rep, 1500 if tier == "quick" else 12000)
+    check_endspike(rng, rep, 60 if tier == "quick" else 600)
     for n in sizes:
         for kind in ("none", "random", "runs", "leading", "trailing"):
             for _ in range(1 if tier == "quick" else 4):
